@@ -898,6 +898,7 @@ func (w *world) oracleQuarantine() {
 // oracleLimits: after the history every destination permit is free again.
 func (w *world) oracleLimits() {
 	s := w.s
+	w.oracleOverLimit()
 	if w.msgLimit > 0 {
 		// the message scopes: every permit taken in Start is back
 		mdone, mgot := false, 0
@@ -941,6 +942,57 @@ func (w *world) oracleLimits() {
 	s.Run(time.Minute, func() bool { return done })
 	if done && got < w.destLimit {
 		s.Violate("C11/permit-leak/destination/remote", "after the message history only %d of %d destination permits for %s could be taken (message endings: %v)", got, w.destLimit, destDomain, w.endings())
+	}
+}
+
+// oracleOverLimit: at no time do more deliveries hold a permit than the limit
+// allows. Seen from the servers: a transaction from MAIL to the end of the
+// message data lies inside the period in which its delivery holds the
+// destination permit of that domain and the message-scope permits, so
+// overlapping transactions of different messages are bounded by the limits
+// (one message may have a transaction per domain at the same time).
+func (w *world) oracleOverLimit() {
+	s := w.s
+	type span struct {
+		msg, dom string
+		a, b     int
+	}
+	var spans []span
+	for _, mx := range w.mxs {
+		for _, tx := range mx.mx.Received() {
+			if tx.MailStep == 0 || len(tx.Rcpts) == 0 {
+				continue
+			}
+			id := ""
+			for _, ln := range strings.Split(string(tx.Data), "\r\n") {
+				if strings.HasPrefix(ln, "X-Sim-Msg: ") {
+					id = strings.TrimPrefix(ln, "X-Sim-Msg: ")
+				}
+			}
+			spans = append(spans, span{id, rcptDomKey(tx.Rcpts[0]), tx.MailStep, tx.Step})
+		}
+	}
+	for i, x := range spans {
+		msgs := map[string]bool{x.msg: true}
+		sameDom := map[string]bool{x.msg: true}
+		for j, y := range spans {
+			if i == j || y.msg == x.msg || y.a > x.b || x.a > y.b {
+				continue
+			}
+			// y overlaps x; count those that are in progress at x's MAIL step
+			if y.a <= x.a && x.a <= y.b {
+				msgs[y.msg] = true
+				if y.dom == x.dom {
+					sameDom[y.msg] = true
+				}
+			}
+		}
+		if w.destLimit > 0 && len(sameDom) > w.destLimit {
+			s.Violate("C11/over-limit/destination/remote", "%d messages had a transaction for destination %q in progress at the same time (controller step %d), the destination concurrency limit is %d", len(sameDom), x.dom, x.a, w.destLimit)
+		}
+		if w.msgLimit > 0 && len(msgs) > w.msgLimit {
+			s.Violate("C11/over-limit/message-scopes/remote/"+strings.Join(w.msgScopes, "+"), "%d messages had transactions in progress at the same time (controller step %d), the %v concurrency limit is %d", len(msgs), x.a, w.msgScopes, w.msgLimit)
+		}
 	}
 }
 
